@@ -62,7 +62,7 @@ impl SignatureConverter<'_> {
         // or a function returning a borrow from its dependency stops compiling
         let deps_lifetime = match (&receiver_generation, sig.inputs.first()) {
             (ReceiverGeneration::Rewrite, Some(syn::FnArg::Typed(pat_type))) => {
-                match pat_type.ty.as_ref() {
+                match peel_type(pat_type.ty.as_ref()) {
                     syn::Type::Reference(type_reference) => type_reference.lifetime.clone(),
                     _ => None,
                 }
@@ -84,7 +84,7 @@ impl SignatureConverter<'_> {
                 let input = sig.inputs.first_mut().unwrap();
                 let input_span = input.span();
                 match input {
-                    syn::FnArg::Typed(pat_type) => match pat_type.ty.as_ref() {
+                    syn::FnArg::Typed(pat_type) => match peel_type(pat_type.ty.as_ref()) {
                         syn::Type::Reference(type_reference) => {
                             let and_token = type_reference.and_token;
                             let lifetime = type_reference.lifetime.clone();
@@ -197,6 +197,15 @@ impl SignatureConverter<'_> {
                 }
             }
         }
+    }
+}
+
+/// The type inside parentheses and invisible groups (`(&T)`, a `$t:ty` macro fragment)
+fn peel_type(ty: &syn::Type) -> &syn::Type {
+    match ty {
+        syn::Type::Paren(paren) => peel_type(paren.elem.as_ref()),
+        syn::Type::Group(group) => peel_type(group.elem.as_ref()),
+        _ => ty,
     }
 }
 
